@@ -268,6 +268,7 @@ RULES = [
     ("C17-R1", "failure branches of the walker count, report and continue", r1),
     ("C17-R3", "content readers are total", r3),
     ("C17-R4", "closed standard output is handled at every write", r4),
+    ("C04-R5", "metadata is read without following links: a link whose target is missing keeps its own attributes [shared with C04]", lambda ctx: __import__("c04").r5(ctx)),
     ("C10-R3", "exit status mapping: no failure -> 0, failures -> 1 [shared with C10]", lambda ctx: c10.r3(ctx)),
     ("C04-R4", "per-entry memo: an unreadable entry keeps nothing of the previous entry [shared with C04]", lambda ctx: __import__("c04").r4(ctx)),
     ("C04-R8", "the byte count of Read::read bounds the data examined [shared with C04]", lambda ctx: __import__("extra2").read_amount_used(ctx)),
